@@ -19,7 +19,9 @@ RULE = ('cases = generated graphs of 1-12 persistent nodes (Node, PersistentMapp
         'referencesf(record) and get_refs(record) equal the strong same-database references the generator placed, without '
         'importing classes, (5) instances of missing classes load as broken objects with the stored state, (6) exportFile of a '
         'generated node whose sub-graph has ordinary references only, importFile into the same database: the copy is '
-        'isomorphic, consists of exactly one new record per exported object, no dangling reference; evaluations = '
+        'isomorphic, consists of exactly one new record per exported object, no dangling reference, (7) the same records '
+        'with every all-below-0x80 oid re-encoded as a Python 2 str (as ZODB 3 wrote them): referencesf/get_refs return the '
+        'same ids as bytes, and the graph loads identically from a storage holding these records; evaluations = '
         'graphs; non-trivial = >= 3 nodes with sharing or a cycle and >= 1 reference inside a nested plain container; '
         'distinct by case hash')
 ASSUMPTIONS = ['a weak reference to a new object causes it to be stored (documented in ObjectWriter.persistent_id)',
@@ -320,6 +322,8 @@ def execute(case):
             tm_b.abort()
             cb.close()
         if not out.failures:
+            legacy_records(s1, s2, spec, objs, strong, expected, oid_of, xt, out, features)
+        if not out.failures:
             export_import(case, conn, tm, db1, spec, objs, strong, expected, oid_of, out, features)
     finally:
         sys.modules.pop(MISSING_MOD, None)
@@ -330,6 +334,93 @@ def execute(case):
         except Exception:
             pass
     return finish(out, features)
+
+
+def legacy_records(s1, s2, spec, objs, strong, expected, oid_of, xt, out, features):
+    """(7) the same records as a Python-2-era ZODB wrote them: an oid whose bytes are all < 0x80 is a *str* in
+    the pickle (SHORT_BINSTRING, same layout as SHORT_BINBYTES).  Reference extraction returns the same ids as
+    bytes, and the graph loads identically from a storage holding these records."""
+    import transaction
+    import ZODB
+    from ZODB.Connection import TransactionMetaData
+    from ZODB.MappingStorage import MappingStorage
+    from ZODB.serialize import get_refs, referencesf
+    known = set(oid_of.values()) | {o._p_oid for o in xt} | {b'\0' * 8}
+    ascii_oids = [o for o in known if all(c < 0x80 for c in o)]
+
+    def transcode(data):
+        for o in ascii_oids:
+            data = data.replace(b'C\x08' + o, b'U\x08' + o)
+        return data
+    current = {}
+    for t in s1.iterator():
+        for r in t:
+            current[r.oid] = r.data
+    legacy = {oid: transcode(d) for oid, d in current.items()}
+    if all(legacy[o] == current[o] for o in current):
+        return
+    features.add('legacy-str-oids')
+    for i, oid in sorted(oid_of.items()):
+        if legacy[oid] == current[oid]:
+            continue
+        exp = sorted(oid_of[t] for t in strong[i])
+        got = referencesf(legacy[oid])
+        if sorted(got, key=repr) != sorted(exp, key=repr) or not all(isinstance(o, bytes) for o in got):
+            out.fail((PROPERTY, 'referencesf', 'legacy-str-oid'),
+                     'node %d (%s, edges %r) with its ids pickled as Python 2 str: referencesf -> %r ; ordinary references placed: %r' % (
+                         i, spec[i]['kind'], spec[i]['edges'], got, exp))
+            return
+        got2 = [r[0] for r in get_refs(legacy[oid])]
+        if sorted(got2, key=repr) != sorted(exp, key=repr) or not all(isinstance(o, bytes) for o in got2):
+            out.fail((PROPERTY, 'get_refs', 'legacy-str-oid'),
+                     'node %d with its ids pickled as Python 2 str: get_refs -> %r ; ordinary references placed: %r' % (i, got2, exp))
+            return
+    # the graph loads identically from these records
+    s3 = MappingStorage('legacy')
+    t = TransactionMetaData()
+    s3.tpc_begin(t)
+    for oid, d in sorted(legacy.items()):
+        s3.store(oid, b'\0' * 8, d, '', t)
+    s3.tpc_vote(t)
+    s3.tpc_finish(t)
+    dbs = {}
+    db3 = ZODB.DB(s3, database_name='one', databases=dbs)
+    ZODB.DB(s2, database_name='two', databases=dbs)
+    tm3 = transaction.TransactionManager()
+    c3 = db3.open(tm3)
+    try:
+        seen = {}
+
+        def visit(o):
+            oid = o._p_oid
+            if o._p_jar is c3 and c3.get(oid) is not o:
+                raise AssertionError('two objects for oid %r in one connection' % oid)
+            p = payload_of(o)
+            mark = p['mark']
+            if mark not in seen:
+                seen[mark] = None
+                seen[mark] = canon(p['items'], visit)
+            return mark
+
+        def visit_orig(o):
+            return payload_of(o)['mark']
+        try:
+            for i in sorted(expected):
+                mark = visit(c3.get(oid_of[i]))
+                if mark != 'MARK%03d' % i:
+                    out.fail((PROPERTY, 'legacy-round-trip', 'wrong-object'), 'oid of node %d loads as %s' % (i, mark))
+                    return
+            for i in sorted(expected):
+                exp = canon(payload_of(objs[i])['items'], visit_orig)
+                if seen['MARK%03d' % i] != exp:
+                    out.fail((PROPERTY, 'legacy-round-trip', 'graph-differs'),
+                             'node %d (ids pickled as Python 2 str) loads as %r ; stored graph has %r' % (i, seen['MARK%03d' % i], exp))
+                    return
+        except AssertionError as e:
+            out.fail((PROPERTY, 'legacy-round-trip', 'identity'), str(e))
+    finally:
+        tm3.abort()
+        c3.close()
 
 
 def export_import(case, conn, tm, db1, spec, objs, strong, expected, oid_of, out, features):
